@@ -207,6 +207,27 @@ def c07_extra(rep, rnd, first_id):
         scn = {"type": t, "mode": mode, "consts": consts, "defs": A.render(t, consts)}
         start = codec.start_for(rnd, scn)
         out.append(codec.parse_record(first_id + len(out), scn, codec.gen_input(rnd, start, maxlen=40), start, rnd.random() < 0.5, both=True))
+    # the members of an anonymous structure / union member are members of the enclosing structure: lengths after it may name them
+    for _ in range(400 if rep.tier == "thorough" else 60):
+        mode = codec.gen_mode(rnd)
+        u8 = A.t_int("uint8")
+        inner2 = A.t_struct("", [A.field("m", u8), A.field("w", A.t_int("uint16"))], union=rnd.random() < 0.3)
+        inner = A.t_struct("", [A.field("n", u8), A.field("", inner2, anon=True)] if rnd.random() < 0.6 else [A.field("n", u8), A.field("m", u8)],
+                           union=rnd.random() < 0.2)
+        elem = rnd.choice([u8, A.t_int("uint16"), A.t_char(), A.t_int("int24")])
+        lens = [A.e_bin("&", A.e_id("n"), A.e_lit(3)), A.e_bin("+", A.e_bin("&", A.e_id("m"), A.e_lit(1)), A.e_bin("&", A.e_id("k"), A.e_lit(1))),
+                A.e_bin("&", A.e_bin("*", A.e_id("n"), A.e_id("m")), A.e_lit(3))]
+        fields = [A.field("k", u8), A.field("", inner, anon=True), A.field("d", A.t_arr(elem, A.L_expr(rnd.choice(lens)))),
+                  A.field("e", A.t_arr(u8, A.L_expr(rnd.choice(lens)))), A.field("t", u8)]
+        if rnd.random() < 0.3:
+            fields = fields[1:]
+            lens = lens[:1] + lens[2:]
+            fields[1] = A.field("d", A.t_arr(elem, A.L_expr(rnd.choice(lens))))
+            fields[2] = A.field("e", A.t_arr(u8, A.L_expr(rnd.choice(lens))))
+        t = A.t_struct("AN", fields)
+        scn = {"type": t, "mode": mode, "consts": {}, "defs": A.render(t, {})}
+        start = codec.start_for(rnd, scn)
+        out.append(codec.parse_record(first_id + len(out), scn, codec.gen_input(rnd, start, maxlen=40), start, rnd.random() < 0.5, both=True))
     return out
 
 
